@@ -23,6 +23,8 @@ CLASSES = [
         inv="is_stopped == s.stopped and implies(s.term, s.stopped)",
         methods=dict(GATE_METHODS, set_disposable=dict(call="self.set_disposable(d)", args={"d": "ref:disposable"})),
         witness="AutoDetachObserver", runner="gaterun.py",
+        init=dict(args={"on_next": "callback", "on_error": "callback", "on_completed": "callback"}, spec={"stopped": False, "term": False},
+                  stores={"_on_next": "on_next", "_on_error": "on_error", "_on_completed": "on_completed"}),
     ),
     ClassContract(
         name="Observer", props=["C01", "C20"], file=O + "observer.py", cls="Observer",
@@ -33,5 +35,7 @@ CLASSES = [
         shared={"cb_next": "_handler_on_next", "cb_error": "_handler_on_error", "cb_completed": "_handler_on_completed"},
         inv="is_stopped == s.stopped and implies(s.term, s.stopped)",
         methods=GATE_METHODS, witness="Observer", runner="gaterun.py",
+        init=dict(args={"on_next": "callback", "on_error": "callback", "on_completed": "callback"}, spec={"stopped": False, "term": False},
+                  stores={"_handler_on_next": "on_next", "_handler_on_error": "on_error", "_handler_on_completed": "on_completed"}),
     ),
 ]
